@@ -833,6 +833,14 @@ func (m *Monitor) onLogDiscard(ev *Event) {
 			}
 		}
 	}
+	if n.starting {
+		// boot-time repair of an interrupted installation: only a log that does NOT hold the snapshot's last entry may
+		// be replaced; a log that holds it (same term) is consistent, and what follows it is durable, acknowledged data
+		m.Counts["c14.boot_discards"]++
+		if e := n.entry(ev.Idx); e != nil && e.Term == ev.Term && n.lastIndex() > ev.Idx {
+			m.violate(ev, []string{"C14", "C11", "C04", "C07"}, "restart-discarded-consistent-log", n.ID, "node %s replaced its log by the snapshot boundary (%d,%d) while starting although the log held that entry and %d durable entries after it (up to index %d)", n.ID, ev.Idx, ev.Term, n.lastIndex()-ev.Idx, n.lastIndex())
+		}
+	}
 	if ev.Idx > n.maxSnapLabel() {
 		m.violate(ev, []string{"C11"}, "discard-beyond-snapshot", n.ID, "node %s discarded its log to %d but no completed snapshot on it covers more than %d", n.ID, ev.Idx, n.maxSnapLabel())
 	}
